@@ -55,6 +55,10 @@ def plan(tier, seed):
               dd=pick(rng, ["complex128", "complex128", "float64", "complex64", "float32"]),
               df=pick(rng, ["complex128", "complex128", "float64", "complex64", "float32"]),
               via=pick(rng, ["func", "func", "linop"]))
+        if i % 10 == 3:
+            # the interpreter mode python -O (validation written as assert vanishes there):
+            # "computed correctly or rejected" must hold in it as well
+            P.cases[-1]["pyopt"] = True
         if i % 9 == 4:
             # integer operands (counts, label masks, integer taps): the convolution of
             # integers is exact - both integer, or an integer next to a real / complex one
